@@ -1042,6 +1042,56 @@ def with_par(cfg, par):
     return cfg
 
 
+def cast_twins(chk, rng, quick):
+    """the same parameter VALUES handed over as another numeric type (Python int, NumPy integer / float64 scalars, 0-d arrays) give the
+    same object: A, B and — with the same seed — the same screen after every step, as the twin built from plain Python floats of exactly
+    those values.  The history clauses only compare an object with its own matrices, and the stationarity oracle is only run on float
+    parameters, so an integer pixel_scale that makes the separations integer (truncated distances, seeded change C05-I: stationary
+    covariance off by 2-15 %) passed every clause of rounds 1-5."""
+    for k in range(10 if quick else 80):
+        cfg = gen_cfg(rng, 12 if quick else 24)
+        cast = ("pyint", "npint", "npfloat", "zerod")[k % 4] if k % 8 < 4 else "pyint"
+        if cast == "pyint":         # whole metres: pixel 1 … 3 m, outer scale a few … 40 pixels
+            cfg["px"] = float(rng.choice([1, 1, 2, 3]))
+            cfg["L0"] = float(cfg["px"] * rng.choice([2, 3, 5, 8, 13, 20, 40]))
+            cfg["r0"] = float(rng.choice([1, 2, 3]))
+        a = dict(cfg, cast=cast)
+        req, px, r0, L0, par = cast_arguments(a)
+        b = dict(cfg, req=int(req), px=float(px), r0=float(r0), L0=float(L0))
+        rep = {"cfg": {kk: vv for kk, vv in a.items()}, "twin_with_python_floats": {kk: vv for kk, vv in b.items()}}
+        chk.count("oracle:cast-twin:" + cast)
+        chk.oracle_cases += 1
+        chk.case(("cast-twin", json.dumps(a, sort_keys=True)))
+        try:
+            pb, gb = construct(b)
+        except Exception:
+            continue                                       # the float configuration itself is refused: nothing to compare with
+        try:
+            pa, ga = construct(a)
+        except Exception as ex:
+            chk.fail("cast-twin:raises:%s:%s" % (cfg["variant"], cast), "%s(nx=%r, pixel_scale=%r, r0=%r, L0=%r) raised %r; with the same values "
+                     "as Python floats it constructs" % (cfg["variant"], req, px, r0, L0, ex), rep)
+            continue
+        bad = None
+        for name in ("A_mat", "B_mat"):
+            x, y = numpy.asarray(getattr(pa, name), dtype=float), numpy.asarray(getattr(pb, name), dtype=float)
+            if x.shape != y.shape or not numpy.all(numpy.abs(x - y) <= 1e-7 * max(1.0, float(numpy.max(numpy.abs(y))))):
+                bad = "%s differs by %.3g (largest entry %.3g)" % (name, float(numpy.max(numpy.abs(x - y))) if x.shape == y.shape else float("nan"),
+                                                                    float(numpy.max(numpy.abs(y))))
+                break
+        if bad is None:
+            for step in range(4):
+                x, y = numpy.asarray(pa.scrn, dtype=float), numpy.asarray(pb.scrn, dtype=float)
+                if x.shape != y.shape or not numpy.all(numpy.abs(x - y) <= 1e-6 * max(1.0, float(numpy.max(numpy.abs(y))))):
+                    bad = "screen after %d steps differs by %.3g" % (step, float(numpy.max(numpy.abs(x - y))) if x.shape == y.shape else float("nan"))
+                    break
+                pa.add_row()
+                pb.add_row()
+        if bad:
+            chk.fail("cast-twin:%s:%s" % (cfg["variant"], cast), "%s(nx=%r, pixel_scale=%r, r0=%r, L0=%r) with the arguments as %s and the twin with "
+                     "the same values as Python floats (same seed): %s" % (cfg["variant"], req, px, r0, L0, cast, bad), rep)
+
+
 def round5_histories(chk, rng, quick, maxn):
     """input classes and histories the generators of rounds 1-4 never produced (all inside the stated domain: 'all sequences of
     add_row / read operations of any length, for both screen variants and all sizes and parameters')"""
@@ -1234,6 +1284,7 @@ def run(chk):
     # function of VERIF_SEED only), so the cases of the earlier rounds are the same as before for every seed
     r5 = random.Random(chk.seed * 1000003 + 50505)
     round5_histories(chk, r5, quick, maxn)
+    cast_twins(chk, r5, quick)
     # the stability clause for pixels of the order of / larger than the outer scale, for other absolute scales and r0 from 1 mm to
     # 30 m, for stencils deeper than 4 rows up to the whole screen and beyond, and for screens wider than 33 pixels (RES_TOL / DEV_TOL
     # unchanged; observed on these classes over 12 seeds x 33 configurations: residual <= 3.9e-11, deviation <= 7.7e-7: >= 128x margin)
